@@ -2516,6 +2516,7 @@ From OxiVerif Require Import Mgr.OomOwnZK Mgr.OomOwnZKProofs Mgr.OomOwnZGc Mgr.O
    points of BooleanFunction for ZBDDFunction (and / or / xor / imp_strict one phase, imp through ite, nand / nor /
    equiv = set operation, then the complement with the intermediate result owned by an EdgeDropGuard) *)
 
+
 Theorem C14_ownz_balance :
   (forall terms nl tid cap gt C cget cadd par fuel s (c : C) op f g,
   match zapply_o terms nl tid cap gt C cget cadd par guards_code fuel s c op f g with
@@ -2560,8 +2561,25 @@ Theorem C14_ownz_balance :
 Proof. exact (conj ownz_balance_set (conj ownz_balance_not (conj ownz_balance_symm (conj ownz_balance_ite ownz_balance_op)))). Qed.
 Print Assumptions C14_ownz_balance.
 
-(* (2) as a snapshot of the manager after ANY outcome: well-formed, reference counts exact (same order) *)
-Theorem C14_ownz_counts :
+(* (3) ROLLBACK: after Err(OutOfMemory) `Manager::gc` (collect, Mgr/ConcGc.v) leaves exactly the nodes of the
+   ORIGINAL table reachable from the caller's tokens, entry by entry (level, children, count) the table a
+   collection of the state before the operation would have produced *)
+Theorem C14_own_rolled_back_meaning : forall k terms nl s s',
+  krolled_back k terms nl s s' <->
+  (forall id,
+    ((exists nd', cfind (cn (collect k terms nl s')) id = Some nd') <->
+     (exists nd, cfind (cn s) id = Some nd) /\
+     (exists o, In o (cown s) /\ creach (cn s) (eref (snd o)) (RN id))) /\
+    (forall nd', cfind (cn (collect k terms nl s')) id = Some nd' ->
+       exists nd, cfind (cn s) id = Some nd /\ cl nd' = cl nd /\ cch nd' = cch nd)) /\
+  (forall id, cfind (cn (collect k terms nl s')) id = cfind (cn (collect k terms nl s)) id) /\
+  Permutation (cown (collect k terms nl s')) (cown s).
+Proof. intros. reflexivity. Qed.
+Print Assumptions C14_own_rolled_back_meaning.
+
+(* (2) COUNTS: as a snapshot of the manager after ANY outcome: well-formed, reference counts exact (set operations; not;
+   symm_diff; ite; operators), and (3) ROLLBACK after Err(OutOfMemory) (set operations; ite; operators) *)
+Theorem C14_ownz_counts_rollback :
   (forall terms nl tid cap gt C cget cadd par fuel s (c : C) op f g,
   ConcProofs.CInv KZbdd terms nl s -> terms_unique_b terms = true ->
   forall s', eres_st (zapply_o terms nl tid cap gt C cget cadd par guards_code fuel s c op f g) = Some s' ->
@@ -2581,28 +2599,7 @@ Theorem C14_ownz_counts :
   (forall terms nl tid cap gt C cget cadd par fuel s (c : C) op f g,
   ConcProofs.CInv KZbdd terms nl s -> terms_unique_b terms = true ->
   forall s', eres_st (zop_o terms nl tid cap gt C cget cadd par guards_code fuel s c op f g) = Some s' ->
-  ConcProofs.CInv KZbdd terms nl s' /\ WF (to_snap KZbdd terms nl s') /\ rc_exact_b (to_snap KZbdd terms nl s') [] = true).
-Proof. exact (conj ownz_counts_set (conj ownz_counts_not (conj ownz_counts_symm (conj ownz_counts_ite ownz_counts_op)))). Qed.
-Print Assumptions C14_ownz_counts.
-
-(* (3) ROLLBACK: after Err(OutOfMemory) `Manager::gc` (collect, Mgr/ConcGc.v) leaves exactly the nodes of the
-   ORIGINAL table reachable from the caller's tokens, entry by entry (level, children, count) the table a
-   collection of the state before the operation would have produced *)
-Theorem C14_own_rolled_back_meaning : forall k terms nl s s',
-  krolled_back k terms nl s s' <->
-  (forall id,
-    ((exists nd', cfind (cn (collect k terms nl s')) id = Some nd') <->
-     (exists nd, cfind (cn s) id = Some nd) /\
-     (exists o, In o (cown s) /\ creach (cn s) (eref (snd o)) (RN id))) /\
-    (forall nd', cfind (cn (collect k terms nl s')) id = Some nd' ->
-       exists nd, cfind (cn s) id = Some nd /\ cl nd' = cl nd /\ cch nd' = cch nd)) /\
-  (forall id, cfind (cn (collect k terms nl s')) id = cfind (cn (collect k terms nl s)) id) /\
-  Permutation (cown (collect k terms nl s')) (cown s).
-Proof. intros. reflexivity. Qed.
-Print Assumptions C14_own_rolled_back_meaning.
-
-(* set operations; ite; the operator entry points *)
-Theorem C14_ownz_err_collect :
+  ConcProofs.CInv KZbdd terms nl s' /\ WF (to_snap KZbdd terms nl s') /\ rc_exact_b (to_snap KZbdd terms nl s') [] = true) /\
   (forall terms nl tid cap gt C cget cadd par fuel s (c : C) op f g s' c',
   ConcProofs.CInv KZbdd terms nl s ->
   zapply_o terms nl tid cap gt C cget cadd par guards_code fuel s c op f g = EErr s' c' ->
@@ -2615,14 +2612,24 @@ Theorem C14_ownz_err_collect :
   ConcProofs.CInv KZbdd terms nl s ->
   zop_o terms nl tid cap gt C cget cadd par guards_code fuel s c op f g = EErr s' c' ->
   krolled_back KZbdd terms nl s s').
-Proof. exact (conj ownz_err_collect_set (conj ownz_err_collect_ite ownz_err_collect_op)). Qed.
-Print Assumptions C14_ownz_err_collect.
+Proof. exact (conj ownz_counts_set (conj ownz_counts_not (conj ownz_counts_symm (conj ownz_counts_ite (conj ownz_counts_op (conj ownz_err_collect_set (conj ownz_err_collect_ite ownz_err_collect_op))))))). Qed.
+Print Assumptions C14_ownz_counts_rollback.
 
 (* non-vacuity: [exz] = a two-variable ZBDD manager as the code builds it (tautology chain owned by the
    manager = tokens of owner 1, x0 and x1 owned by thread 0) satisfies the hypotheses; every outcome occurs;
    nand / equiv need two slots (two phases) and fail after the first phase with 6 slots *)
 (* equiv with 6 slots: the symmetric difference created node 6, the complement ran out of memory; the guard
    released node 6 (count 0), the tokens are literally the caller's, the collection returns [exz] *)
+(* teeth: seeded/C14g - equiv holding the symmetric difference as a bare edge while the complement runs
+   (`let res = not(&xor)?; drop_edge(xor); Ok(res)`, [guards_late_equiv]): on [exz] with 6 slots the run fails
+   owning one token MORE than before (BALANCE false) and after the collection node 6 - which did not exist
+   before - is still stored (ROLLBACK false); the code's placement fails on the same input and satisfies the
+   statement; with 7 slots (success) the variant is indistinguishable from the code *)
+(* teeth: seeded/C14b - `binary_ternary` with the guards created after both `?` ([guards_late_bt]) on [exz3] (three
+   variables; ite(x2, x0, node 5) with 9 slots = store full: the intersection branch is a unique-table hit, a new OWNED edge
+   without allocation, the ite branch runs out of memory): one token more than before, and after the collection the entry
+   of node 8 (its count) is not the one a collection of the original state yields; the code's placement fails on the same
+   input and satisfies the statement *)
 Theorem C14_ownz_example :
   (ConcProofs.CInv KZbdd zterms 2 exz /\ terms_unique_b zterms = true) /\
   (forall p,
@@ -2648,16 +2655,8 @@ Theorem C14_ownz_example :
          (2%positive, 1%N); (1%positive, 4%N)] /\
       collect KZbdd zterms 2 s' = exz
   | _ => False
-  end).
-Proof. exact (conj exz_inv (conj exz_ops exz_equiv_garbage)). Qed.
-Print Assumptions C14_ownz_example.
-
-(* teeth: seeded/C14g - equiv holding the symmetric difference as a bare edge while the complement runs
-   (`let res = not(&xor)?; drop_edge(xor); Ok(res)`, [guards_late_equiv]): on [exz] with 6 slots the run fails
-   owning one token MORE than before (BALANCE false) and after the collection node 6 - which did not exist
-   before - is still stored (ROLLBACK false); the code's placement fails on the same input and satisfies the
-   statement; with 7 slots (success) the variant is indistinguishable from the code *)
-Theorem C14_ownz_balance_late_equiv_refuted : forall p,
+  end) /\
+  (forall p,
   (match zop_on zterms 2 0 6 p guards_late_equiv exz OEquiv (RN 3) (RN 5) with
    | EErr s' _ =>
        ~ Permutation (cown s') (cown exz) /\
@@ -2669,9 +2668,20 @@ Theorem C14_ownz_balance_late_equiv_refuted : forall p,
   kown_post KZbdd zterms 2 0 unit exz (zop_on zterms 2 0 6 p guards_code exz OEquiv (RN 3) (RN 5)) /\
   eres_code (zop_on zterms 2 0 6 p guards_code exz OEquiv (RN 3) (RN 5)) = 1 /\
   zop_on zterms 2 0 7 p guards_late_equiv exz OEquiv (RN 3) (RN 5) =
-  zop_on zterms 2 0 7 p guards_code exz OEquiv (RN 3) (RN 5).
-Proof. exact ownz_balance_late_equiv_refuted. Qed.
-Print Assumptions C14_ownz_balance_late_equiv_refuted.
+  zop_on zterms 2 0 7 p guards_code exz OEquiv (RN 3) (RN 5)) /\
+  (ConcProofs.CInv KZbdd zterms 3 exz3) /\
+  (forall p,
+  (match zite_on zterms 3 0 9 p guards_late_bt exz3 (RN 9) (RN 4) (RN 5) with
+   | EErr s' _ =>
+       ~ Permutation (cown s') (cown exz3) /\
+       length (cown s') = S (length (cown exz3)) /\
+       exists id, cfind (cn (collect KZbdd zterms 3 s')) id <> cfind (cn (collect KZbdd zterms 3 exz3)) id
+   | _ => False
+   end) /\
+  kown_post KZbdd zterms 3 0 unit exz3 (zite_on zterms 3 0 9 p guards_code exz3 (RN 9) (RN 4) (RN 5)) /\
+  eres_code (zite_on zterms 3 0 9 p guards_code exz3 (RN 9) (RN 4) (RN 5)) = 1).
+Proof. exact (conj exz_inv (conj exz_ops (conj exz_equiv_garbage (conj ownz_balance_late_equiv_refuted (conj exz3_inv ownz_balance_late_bt_refuted))))). Qed.
+Print Assumptions C14_ownz_example.
 
 (* the complement-edge rule set: tokens are TAGGED edges ([toke tid e] = [(tid, e)] for an inner edge);
    `reduce` retags its two owned children and the returned edge, `not_owned` retags the result *)
@@ -2715,8 +2725,8 @@ Theorem C14_ownc_balance :
 Proof. exact (conj ownc_balance_bin (conj ownc_balance_not (conj ownc_balance_op (conj ownc_balance_ite ownc_not_never_oom)))). Qed.
 Print Assumptions C14_ownc_balance.
 
-(* operators; not_edge; ite *)
-Theorem C14_ownc_counts :
+(* COUNTS (operators; not_edge; ite) and ROLLBACK (operators; ite) *)
+Theorem C14_ownc_counts_rollback :
   (forall terms nl tid cap lt C cget cadd par fuel s (c : C) o f g,
   ConcProofs.CInv KBcdd terms nl s -> terms_unique_b terms = true ->
   forall s', eres_st (cop_o terms nl tid cap lt C cget cadd par guards_code fuel s c o f g) = Some s' ->
@@ -2728,12 +2738,7 @@ Theorem C14_ownc_counts :
   (forall terms nl tid cap lt C cget cadd par fuel s (c : C) f g h,
   ConcProofs.CInv KBcdd terms nl s -> terms_unique_b terms = true ->
   forall s', eres_st (cite_o terms nl tid cap lt C cget cadd par guards_code fuel s c f g h) = Some s' ->
-  ConcProofs.CInv KBcdd terms nl s' /\ WF (to_snap KBcdd terms nl s') /\ rc_exact_b (to_snap KBcdd terms nl s') [] = true).
-Proof. exact (conj ownc_counts_op (conj ownc_counts_not ownc_counts_ite)). Qed.
-Print Assumptions C14_ownc_counts.
-
-(* operators; ite *)
-Theorem C14_ownc_err_collect :
+  ConcProofs.CInv KBcdd terms nl s' /\ WF (to_snap KBcdd terms nl s') /\ rc_exact_b (to_snap KBcdd terms nl s') [] = true) /\
   (forall terms nl tid cap lt C cget cadd par fuel s (c : C) o f g s' c',
   ConcProofs.CInv KBcdd terms nl s ->
   cop_o terms nl tid cap lt C cget cadd par guards_code fuel s c o f g = EErr s' c' ->
@@ -2742,11 +2747,13 @@ Theorem C14_ownc_err_collect :
   ConcProofs.CInv KBcdd terms nl s ->
   cite_o terms nl tid cap lt C cget cadd par guards_code fuel s c f g h = EErr s' c' ->
   krolled_back KBcdd terms nl s s').
-Proof. exact (conj ownc_err_collect_op ownc_err_collect_ite). Qed.
-Print Assumptions C14_ownc_err_collect.
+Proof. exact (conj ownc_counts_op (conj ownc_counts_not (conj ownc_counts_ite (conj ownc_err_collect_op ownc_err_collect_ite)))). Qed.
+Print Assumptions C14_ownc_counts_rollback.
 
 (* non-vacuity and teeth on [exc] (three variables, node 4 = (x0 ? x1 : x2), node 5 = (x0 ? x2 : not x1), five
    owned edges two of which are complemented) *)
+(* last conjunct: the recursor guards created after both `?` (binary: and; ternary: ite), 6 slots: one token leaked, node 6
+   survives the collection; the code's placement fails on the same inputs and satisfies the statement *)
 Theorem C14_ownc_example :
   (ConcProofs.CInv KBcdd cterms 3 exc /\ terms_unique_b cterms = true) /\
   (forall p,
@@ -2766,13 +2773,8 @@ Theorem C14_ownc_example :
          (2%positive, 3%N); (1%positive, 1%N)] /\
       collect KBcdd cterms 3 s' = exc
   | _ => False
-  end).
-Proof. exact (conj exc_inv (conj exc_ops exc_and_garbage)). Qed.
-Print Assumptions C14_ownc_example.
-
-(* the recursor guards created after both `?` (binary: and; ternary: ite), 6 slots: one token leaked, node 6
-   survives the collection; the code's placement fails on the same inputs and satisfies the statement *)
-Theorem C14_ownc_balance_late_refuted : forall p,
+  end) /\
+  (forall p,
   (match cop_on cterms 3 0 6 p guards_late_all exc OAnd (cN 4) (cN 5) with
    | EErr s' _ =>
        ~ Permutation (cown s') (cown exc) /\
@@ -2791,6 +2793,6 @@ Theorem C14_ownc_balance_late_refuted : forall p,
    end) /\
   kown_post KBcdd cterms 3 0 unit exc (cop_on cterms 3 0 6 p guards_code exc OAnd (cN 4) (cN 5)) /\
   eres_code (cop_on cterms 3 0 6 p guards_code exc OAnd (cN 4) (cN 5)) = 1 /\
-  eres_code (cite_on cterms 3 0 6 p guards_code exc (cN 2) (cN 4) (cN 5)) = 1.
-Proof. exact ownc_balance_late_refuted. Qed.
-Print Assumptions C14_ownc_balance_late_refuted.
+  eres_code (cite_on cterms 3 0 6 p guards_code exc (cN 2) (cN 4) (cN 5)) = 1).
+Proof. exact (conj exc_inv (conj exc_ops (conj exc_and_garbage ownc_balance_late_refuted))). Qed.
+Print Assumptions C14_ownc_example.
